@@ -7,7 +7,7 @@ from rules import common, c10
 
 CLAIMED = True
 TECHNIQUE = "static analysis over type-checked MIR: panic/abort-site inventory over the call-graph cone of PatternEncoder::new/encode/deserialize (overflow/bounds asserts, may-panic external contracts, fallible Display into write_fmt), discharged by dominating-guard must-facts or a construct-keyed allow-list; dominance of strftime validation over every Time chunk construction; checked width accumulation; error-marker template"
-LEVEL_TEXT = """Static, all-paths decision that no un-discharged panic site is reachable from PatternEncoder::new, <PatternEncoder as Encode>::encode or the pattern deserializer (cone over resolved callees incl. closures and callbacks through external generics; cut at dyn Encode and at writers outside the pattern module): (P1) every MIR overflow/bounds/div assert and every call whose external contract is 'may panic' is discharged by a dominating guard (vector length / Option emptiness / non-zero must-facts), or by an allow-list entry keyed by function+construct+operand provenance with a stated reason; (P2) every construction of the Time chunk is dominated by a strftime validation of the same format string whose failure edge yields an error chunk (chrono's Display fails on bad directives and write_fmt would panic); (P3) the decimal width accumulator uses checked/saturating arithmetic only, with the overflow edge surfacing an error piece (dev and release configurations); (P4) the error arm of Chunk::encode writes '{ERROR: <msg>}' and every Piece::Error becomes Chunk::Error. Stack depth under nested patterns (parser/From recursion) is listed, not decided. (P7) in Parser::args every group parsed is pushed before the next is looked for or the list returned; (P8) nothing in the module's cone is sized by a parsed width."""
+LEVEL_TEXT = """Static, all-paths decision that no un-discharged panic site is reachable from PatternEncoder::new, <PatternEncoder as Encode>::encode or the pattern deserializer (cone over resolved callees incl. closures and callbacks through external generics; cut at dyn Encode and at writers outside the pattern module): (P1) every MIR overflow/bounds/div assert and every call whose external contract is 'may panic' is discharged by a dominating guard (vector length / Option emptiness / non-zero must-facts), or by an allow-list entry keyed by function+construct+operand provenance with a stated reason; (P2) every construction of the Time chunk is dominated by a strftime validation of the same format string whose failure edge yields an error chunk (chrono's Display fails on bad directives and write_fmt would panic); (P3) the decimal width accumulator uses checked/saturating arithmetic only, with the overflow edge surfacing an error piece (dev and release configurations); (P4) the error arm of Chunk::encode writes '{ERROR: <msg>}' and every Piece::Error becomes Chunk::Error. Stack depth under nested patterns (parser/From recursion) is listed, not decided. (P7) in Parser::args every group parsed is pushed before the next is looked for or the list returned; (P8) nothing in the module's cone is sized by a parsed width. (P1, cont.) a run-time width or precision argument of a format string (`{:1$}`) is a panic site (core::fmt takes at most u16::MAX)."""
 LEVEL_NOTE = "Trusted: rustc MIR/callee resolution; the external-contract table (an external callee not listed is assumed not to panic); io::Write contract (n <= buf.len()) for the inner writer; chrono's StrftimeItems reports every invalid directive as Item::Error. Conservative: a new un-discharged site in the cone is reported even if it cannot fail for reasons the dischargers do not see."
 EXPLANATION = """Decided: P1 panic-site inventory over the cone (all sites discharged), P2 validated strftime formats, P3 checked width accumulation, P4 error rendering. Undecided: stack depth for deeply nested patterns (recursion noted), behaviour of the underlying writer (C18 owns the console/ANSI writers)."""
 DECIDED = ["P1 panic inventory", "P2 strftime validated before use", "P3 checked width accumulation", "P4 {ERROR: ..} rendering", "P5 the parser's cursor moves before every piece it returns"]
